@@ -289,6 +289,10 @@ func fmtDefault(fd protoreflect.FieldDescriptor) (valid bool, s string) {
 	if !v.IsValid() {
 		return false, ""
 	}
+	if fd.Kind() == 0 && fd.DefaultEnumValue() != nil {
+		// unknown kind (`type` omitted, unresolvable type tolerated): the default is an enum value taken on trust
+		return true, strconv.Itoa(int(v.Enum()))
+	}
 	switch fd.Kind() {
 	case protoreflect.EnumKind:
 		return true, strconv.Itoa(int(v.Enum()))
